@@ -178,8 +178,10 @@ def all_rewrites():
     return [(rel, subs, None) for rel, subs in res.items()]
 
 
-def build_harness(run_dir, race=False, tags='verif'):
-    """go build -overlay of cmd/verifharness against /repo's working tree."""
+def build_harness(run_dir, race=False, tags='verif', drivers=None):
+    """go build -overlay of cmd/verifharness against /repo's working tree.
+    drivers: when given, only cmd/verifharness/drv_<name>*.go of these drivers are compiled in (plus every
+    non-drv_ file), so one property's check does not depend on another property's driver compiling."""
     t0 = time.time()
     notes = []
     ov = {}
@@ -188,6 +190,10 @@ def build_harness(run_dir, race=False, tags='verif'):
         for fn in files:
             src = os.path.join(root, fn)
             rel = os.path.relpath(src, ovroot)
+            if drivers is not None and os.path.dirname(rel) == os.path.join('cmd', 'verifharness') and fn.startswith('drv_'):
+                stem = fn[4:-3] if fn.endswith('.go') else fn[4:]
+                if not any(stem == d.replace('-', '_') or stem.startswith(d.replace('-', '_') + '_') for d in drivers):
+                    continue
             ov[os.path.join(REPO, rel)] = src
     rw_dir = os.path.join(run_dir, 'rw')
     os.makedirs(rw_dir, exist_ok=True)
@@ -329,7 +335,7 @@ def coq_eval(drv_module, recs, run_dir, tag, shard=400, extra_defs='', jobs=12, 
             continue
         M += [base + int(x) for x in re.findall(r'-?\d+', m.group(1))]
         F += [base + int(x) for x in re.findall(r'-?\d+', f.group(1))]
-        for a, b in re.findall(r'\((-?\d+),\s*(-?\d+)\)', k.group(1)):
+        for a, b in re.findall(r'\(\s*(-?\d+)\s*,\s*(-?\d+)\s*\)', k.group(1)):
             K[base + int(a)] = int(b)
     return ok, M, F, K, '\n'.join(logs)
 
